@@ -50,9 +50,20 @@ def atom(t):
     return (("not " if neg else "") + "truth", src(t))
 
 
+class _StripWalrus(ast.NodeTransformer):
+    """`(n := expr)` used inside a condition stands for `n` as far as later uses of `n` are concerned"""
+
+    def visit_NamedExpr(self, node):
+        return ast.copy_location(ast.Name(id=node.target.id, ctx=ast.Load()), node)
+
+
 def conjuncts(test):
     """frozenset of canonical atoms of a conjunction (a single atom is a one-element conjunction);
     De Morgan is applied to `not (a or b)`."""
+    if any(isinstance(n, ast.NamedExpr) for n in ast.walk(test)):
+        import copy
+
+        test = ast.fix_missing_locations(_StripWalrus().visit(copy.deepcopy(test)))
     if isinstance(test, ast.BoolOp) and isinstance(test.op, ast.And):
         out = set()
         for v in test.values:
